@@ -4,6 +4,7 @@ package fake
 
 import (
 	"bytes"
+	"compress/gzip"
 	"crypto/sha1"
 	"encoding/hex"
 	"encoding/json"
@@ -532,6 +533,17 @@ func (t *Transport) RoundTrip(req *http.Request) (*http.Response, error) {
 		return resp, nil
 	}
 	resp, err := s.ServeBytes(req, req.Header.Get("Content-Type"), body)
+	if err == nil && resp != nil && resp.Body != nil && strings.Contains(req.Header.Get("Accept-Encoding"), "gzip") {
+		// the caller asked for gzip by itself (net/http's own negotiation happens below this layer): it gets gzip
+		b, _ := io.ReadAll(resp.Body)
+		var zb bytes.Buffer
+		zw := gzip.NewWriter(&zb)
+		zw.Write(b)
+		zw.Close()
+		resp.Body = io.NopCloser(bytes.NewReader(zb.Bytes()))
+		resp.ContentLength = int64(zb.Len())
+		resp.Header.Set("Content-Encoding", "gzip")
+	}
 	return s.tracked(resp), err
 }
 
